@@ -235,7 +235,7 @@ func intrinsicKinds(v ssa.Value) map[int64]bool {
 		return allValidKinds
 	default:
 		// a helper of the package: the kinds of everything it can return
-		if f.Pkg != nil && f.Pkg.Pkg.Path() == twigPath && len(f.Blocks) > 0 && !inKindSummary[f] && (isReflectValue(c.Type()) || isReflectType(c.Type())) {
+		if isTwigFn(f) && len(f.Blocks) > 0 && !inKindSummary[f] && (isReflectValue(c.Type()) || isReflectType(c.Type())) {
 			inKindSummary[f] = true
 			defer delete(inKindSummary, f)
 			union := map[int64]bool{}
@@ -847,7 +847,7 @@ func isAssignableTest(v ssa.Value, depth int) bool {
 		return (n == "AssignableTo" || n == "ConvertibleTo") && isReflectType(c.Call.Value.Type())
 	}
 	g := c.Call.StaticCallee()
-	if g == nil || depth > 2 || g.Pkg == nil || g.Pkg.Pkg.Path() != twigPath || len(g.Blocks) == 0 {
+	if g == nil || depth > 2 || !isTwigFn(g) || len(g.Blocks) == 0 {
 		return false
 	}
 	if g.Signature.Results().Len() != 1 || !types.Identical(g.Signature.Results().At(0).Type().Underlying(), types.Typ[types.Bool]) {
@@ -1099,7 +1099,7 @@ func kindPredicateSet(g *ssa.Function) (map[int64]bool, bool) {
 		return m, m != nil
 	}
 	kindPredMemo[g] = nil
-	if g.Pkg == nil || g.Pkg.Pkg.Path() != twigPath || len(g.Blocks) == 0 || len(g.Params) != 1 || !isNamed(g.Params[0].Type(), "reflect", "Kind") {
+	if !isTwigFn(g) || len(g.Blocks) == 0 || len(g.Params) != 1 || !isNamed(g.Params[0].Type(), "reflect", "Kind") {
 		return nil, false
 	}
 	if g.Signature.Results().Len() != 1 || !types.Identical(g.Signature.Results().At(0).Type().Underlying(), types.Typ[types.Bool]) {
